@@ -349,6 +349,40 @@ def r5_unbounded_constructor_gets_fixed_errors(ctx):
     R.floor("C08.R5", n, 10, "MethodResponse::error sites")
 
 
+def r6_batch_policy_not_derived_from_the_response_limit(ctx):
+    """`the response limit never changes which requests are accepted`: the batch policy handed to handle_rpc_call is the
+    configured batch_requests_config, verbatim - every leaf of its provenance is that configuration field (or a parameter
+    fed from it), never a value built on the way (a Limit computed from max_response_body_size refuses batches whose
+    reply would fit, and refuses them with the request-side error)."""
+    from .c07 import _report_leaves
+    F, R = ctx.F, ctx.R
+    tr = ctx.tracer()
+    n = 0
+    for c in F.all_calls(r"^jsonrpsee_server::server::handle_rpc_call$"):
+        if is_test_body(c.body) or len(c.args) < 3:
+            continue
+        n += 1
+        R.fn(c.body)
+        _report_leaves(R, "C08.R6", "%s:batch-policy-origin" % fkey(c.body), "batch policy passed to handle_rpc_call", where(c), tr.origins(c.body, c.args[2]), want="batch_requests_config")
+    R.floor("C08.R6", n, 2, "callers of handle_rpc_call")
+
+
+def r7_only_append_refuses_a_batch_reply(ctx):
+    """`a batch reply that would exceed the limit becomes -32011; any reply that fits is sent unchanged`: whether the reply
+    fits is decided where its bytes are counted - reject_too_big_batch_response is built by BatchResponseBuilder::append
+    and nowhere else (refusing the whole batch because one entry was replaced by its -32008 error loses that entry's id
+    and the other entries although the array would have fitted)."""
+    F, R = ctx.F, ctx.R
+    n = 0
+    for c in F.all_calls(r"reject_too_big_batch_response$"):
+        if c.body.crate not in (SERVER, CORE) or is_test_body(c.body):
+            continue
+        n += 1
+        R.fn(c.body)
+        R.check(bool(re.search(r"BatchResponseBuilder::append$", c.body.path)), "C08.R7", "too-big-batch-site:%s" % fkey(c.body), "-32011 is built where the reply's bytes are counted (append)", "%s answers `batch response too large` (-32011) on its own, without the reply having been measured by BatchResponseBuilder::append: a batch whose reply fits is refused, the entries' ids and the other entries' results are lost" % short(c.body.path), where(c))
+    R.floor("C08.R7", n, 1, "sites that build the -32011 refusal")
+
+
 def rsib_entry_points_agree(ctx):
     """the high-level server and the low-level entry points feed the shared machinery from the same settings"""
     from .common import sibling_config_agreement
@@ -375,7 +409,7 @@ def rin_inbound_limits_from_request_limit(ctx):
     soketto_inbound_limits(ctx, "C08.INBOUND")
 
 
-RULES = [r1_size_provenance, r2_bounded_writer, r3_batch, r4_oversize_reply, r5_unbounded_constructor_gets_fixed_errors, rsib_entry_points_agree, rcfg_config_verbatim, rflag_success_flag_matches_json, rin_inbound_limits_from_request_limit]
+RULES = [r1_size_provenance, r2_bounded_writer, r3_batch, r4_oversize_reply, r5_unbounded_constructor_gets_fixed_errors, r6_batch_policy_not_derived_from_the_response_limit, r7_only_append_refuses_a_batch_reply, rsib_entry_points_agree, rcfg_config_verbatim, rflag_success_flag_matches_json, rin_inbound_limits_from_request_limit]
 
 LEVEL_TEXT = (
     "Structural necessary conditions decided exactly from the type-checked program: provenance of every response-size "
